@@ -216,7 +216,7 @@ def _dict_models(ctx, fn, rng):
         yield {(a, b, c): 1}
         yield {(a, b, c): -1, (c, a): 1}
         yield {(c, c, a): 2, (b, a, b): -2}
-    n = ctx.pick(150, 3000)
+    n = ctx.pick(500, 10000)
     labels = LABELS[:4]
     for terms in gen_models(rng, n, labels, maxlen, TIE_COEFS + [0.5], max_terms=5, raw=True, allow_zero=True):
         yield terms
@@ -286,7 +286,7 @@ def _type_models(ctx, tname, rng, n):
 def _gen_models(all_solutions):
     def gen(ctx):
         rng = ctx.rng("c09.models.%s" % all_solutions)
-        n = ctx.pick(40, 800)
+        n = ctx.pick(150, 3000)
         for fn in FNS:
             for tname in FN_TYPES[fn]:
                 k = 0
@@ -334,7 +334,7 @@ _REL = {"eq": lambda v: v == 0, "ne": lambda v: v != 0, "lt": lambda v: v < 0, "
 
 def _gen_methods(ctx):
     rng = ctx.rng("c09.methods")
-    n = ctx.pick(30, 600)
+    n = ctx.pick(100, 2000)
     for tname in ALL_TYPES:
         for terms in _type_models(ctx, tname, rng, n):
             for allsol in (False, True):
@@ -342,7 +342,7 @@ def _gen_methods(ctx):
     # constrained models: integer constraints over the objective's own variables
     for tname in ("PCBO", "PCSO"):
         labels = LABELS[:4]
-        for terms in gen_models(rng, ctx.pick(120, 2400), labels, 3, TIE_COEFS, max_terms=4, min_terms=2):
+        for terms in gen_models(rng, ctx.pick(400, 8000), labels, 3, TIE_COEFS, max_terms=4, min_terms=2):
             vs = variables_of(terms)
             if len(vs) < 2:
                 continue
@@ -416,7 +416,7 @@ def _gen_edge(ctx):
                     yield {"fn": fn, "type": tname, "terms": terms, "valid": "all", "all": allsol, "kind": "constant"}
                 deg = 2 if (fn in ("qubo", "quso") or tname.startswith("Q")) else 3
                 labels = INT_LABELS if tname in MATRIX_TYPES else LABELS[:4]
-                for terms in gen_models(rng, ctx.pick(6, 120), labels, deg, COEFS, max_terms=4, min_terms=1):
+                for terms in gen_models(rng, ctx.pick(15, 300), labels, deg, COEFS, max_terms=4, min_terms=1):
                     if not variables_of(terms):
                         continue
                     yield {"fn": fn, "type": tname, "terms": terms, "valid": "never", "all": allsol, "kind": "novalid"}
@@ -456,7 +456,7 @@ def check_edge(case):
 # ---------------------------------------------------------------------------------------------
 def _gen_unchanged(ctx):
     rng = ctx.rng("c09.unchanged")
-    n = ctx.pick(12, 240)
+    n = ctx.pick(30, 600)
     for fn in FNS:
         for tname in ["dict"] + FN_TYPES[fn]:
             deg = 2 if (fn in ("qubo", "quso") or tname.startswith("Q")) else 3
@@ -506,7 +506,7 @@ def check_unchanged(case):
 # ---------------------------------------------------------------------------------------------
 def _gen_raw(ctx):
     rng = ctx.rng("c09.raw")
-    n = ctx.pick(60, 1200)
+    n = ctx.pick(200, 4000)
     # minimal shapes first
     for tname in ALL_TYPES:
         l0, l1 = (0, 1) if tname in MATRIX_TYPES else ('a', 'b')
@@ -600,7 +600,7 @@ def _gen_problem(ctx):
     for S in fixed:
         for allsol in (False, True):
             yield {"problem": "NumberPartitioning", "S": S, "all": allsol}
-    for _ in range(ctx.pick(40, 800)):
+    for _ in range(ctx.pick(100, 2000)):
         S = [rng.randint(1, 6) for _ in range(rng.randint(1, 6))]
         yield {"problem": "NumberPartitioning", "S": S, "all": rng.random() < 0.6}
 
